@@ -114,12 +114,24 @@ def log_encode():
         '''),
                         (('before', r'let mut terms'), '''proof { lemma_next_id(old(self).decision_variables@, id_base); }
         '''),
-                        (('before', r'Ok\(Linear::new\('), '''proof {
+                        (('before', r'Ok\(__l\)'), '''proof {
             assert forall|j: int| 0 <= j < terms.len() implies (#[trigger] terms[j]).1@ is Fin && rabs(terms[j].1@->Fin_0) > eps_real() by {
                 lemma_p2(j as nat); lemma_p2((n - 1) as nat);
             }
         }
-        ''')])
+        let ghost tp = terms@;
+        // R20c: the argument of the tail expression is hoisted into a `let` so that the proof can name the value returned by Linear::new
+        let __l = Linear::new(terms, lower);
+        proof {
+            // Linear::new returns the specified merge of the pairs; for strictly increasing ids and coefficients that are not dropped that merge is the input itself
+            let k = tp.len() as int;
+            assert(incr_kept(tp));
+            assert(pairs_fin(tp));
+            lemma_acc_incr(tp, k);
+            lemma_sorted_listing_unique(__l.terms@, tp, acc(pairs_terms(tp), k), k);
+        }
+        ''')],
+                post_subs=[('Ok(Linear::new(terms, lower))', 'Ok(__l)')])
 
 
 def linear_from_f64():
